@@ -8,7 +8,7 @@
 From Coq Require Import ZArith List Bool.
 Import ListNotations.
 From TF Require Import Lib.GoInt Lib.Bytes Gen.Geometry Model.CRC Model.Sidecar Model.Resume.
-From TF Require Import Proofs.CRC Proofs.Sidecar Proofs.Resume Proofs.Geometry Proofs.ResumeFile.
+From TF Require Import Proofs.CRC Proofs.Sidecar Proofs.Resume Proofs.Geometry Proofs.ResumeFile Proofs.Popcount.
 Open Scope Z_scope.
 
 (* what Flush writes is what LoadSidecar returns *)
@@ -150,6 +150,27 @@ Theorem C06_untrusted_file_identical : forall h rq d src tail vnone br o,
   o_file o = src.
 Proof. exact resume_identical_unloaded. Qed.
 Print Assumptions C06_untrusted_file_identical.
+
+(* the number the receiver subtracts from the chunk count (CountSet) is, for every
+   bitmap LoadSidecar accepts, exactly the number of chunks the metadata records:
+   no padding bit and no foreign byte is ever counted, so "remaining = total -
+   CountSet" is the number of chunks not yet recorded *)
+Theorem C06_popcount_is_recorded_chunks : forall bm total,
+  bytes_ok bm -> 0 <= total -> zlen bm = byte_len total -> padding_clear bm total = true ->
+  count_set bm = marked bm total (Z.to_nat total).
+Proof. exact count_set_is_marked. Qed.
+Print Assumptions C06_popcount_is_recorded_chunks.
+
+Theorem C06_loaded_popcount : forall d s, bytes_ok d -> load d = Some s -> 0 <= sc_total s ->
+  count_set (sc_bitmap s) = marked (sc_bitmap s) (sc_total s) (Z.to_nat (sc_total s)).
+Proof. intros d s Hd Hl Ht. apply wf_count_set_is_marked; [eapply loaded_wellformed; eassumption|exact Ht]. Qed.
+Print Assumptions C06_loaded_popcount.
+
+Theorem C06_remaining_is_unrecorded : forall h rq d br,
+  recv_begin h rq d = Ret br -> wf (br_sc br) -> sc_total (br_sc br) = br_total br -> 0 <= br_total br ->
+  br_remaining br = br_total br - marked (sc_bitmap (br_sc br)) (br_total br) (Z.to_nat (br_total br)).
+Proof. exact remaining_is_unrecorded. Qed.
+Print Assumptions C06_remaining_is_unrecorded.
 
 (* PARTIAL: the repair is applied if the re-sent frame reaches the receiver while
    the file is still open (any arrival order of the other frames) *)
